@@ -115,12 +115,19 @@ func cmdGuards(args []string) int {
 		{"vote_other_height", func(e *guardEnv) { e.vd.h++ }},
 		{"vote_type_new_view", func(e *guardEnv) { e.vd.ht = protocol.LEAN_HELIX_NEW_VIEW }},
 		{"vote_sig_forged", func(e *guardEnv) { e.vd.mode = "forged" }},
+		{"everything_other_instance", func(e *guardEnv) { e.vd.inst++; e.vd.proof.pp.inst++; e.vd.proof.p.inst++ }}, // a vote that is genuine in another instance
 		{"vote_by_outsider", func(e *guardEnv) { e.vd.sender = e.cl.ids[e.cl.nMembers] }},
 		{"vote_for_view_led_by_another", func(e *guardEnv) { e.vd.v++ }},
 		{"vote_block_missing", func(e *guardEnv) { e.blk = nil }},
 		{"vote_other_block_attached", func(e *guardEnv) { e.blk = other(e) }},
 	}
-	vcCase := func(ws []uint64, rotate bool, tv, pv uint64, devs []vcDev) {
+	// cached = true: the message reaches the node BEFORE it starts height 1, waits in the future cache and is handled when the
+	// round starts (the same guards must hold on that path; the instance / sender / height filter sits in front of the cache)
+	begin := func(r *run, n *cnode) {
+		n.sync(nil, nil)
+		r.record(n, "start", obj{"k": "-"}, nil)
+	}
+	vcCase := func(ws []uint64, rotate bool, tv, pv uint64, devs []vcDev, cached bool) {
 		probe := newCluster(ws, nil, 0, rotate)
 		keep := memberIdx(probe, leaderAt(probe, h, tv)) // the node under test leads the view the vote is for
 		probe.close()
@@ -131,8 +138,9 @@ func cmdGuards(args []string) int {
 		n := cl.nodes[keep]
 		r.emitInit(runId)
 		runId++
-		n.sync(nil, nil)
-		r.record(n, "start", obj{"k": "-"}, nil)
+		if !cached {
+			begin(r, n)
+		}
 		e := &guardEnv{cl: cl, r: r, n: n, h: h, tv: tv}
 		e.blk = r.adv.newBody(r, h, false)
 		leader := leaderAt(cl, h, pv)
@@ -158,6 +166,9 @@ func cmdGuards(args []string) int {
 		} else {
 			r.deliverTo(n, r.adv.mkVC(e.vd, blk), "deliver", "byz", "guard_vc:"+name)
 		}
+		if cached {
+			begin(r, n)
+		}
 	}
 
 	// ---------------------------------------------------------------- NEW_VIEW to a follower
@@ -169,6 +180,13 @@ func cmdGuards(args []string) int {
 		{"", func(e *guardEnv) {}},
 		{"one_vote_other_instance", func(e *guardEnv) { e.vds[0].inst++ }},
 		{"all_votes_other_instance", func(e *guardEnv) {
+			for i := range e.vds {
+				e.vds[i].inst++
+			}
+		}},
+		{"everything_other_instance", func(e *guardEnv) { // a NEW_VIEW that is genuine in another instance
+			e.nv.inst++
+			e.nv.pp.inst++
 			for i := range e.vds {
 				e.vds[i].inst++
 			}
@@ -206,7 +224,7 @@ func cmdGuards(args []string) int {
 			e.nv.pp.hash, e.nvBk = hashOfBody(b.body), b
 		}},
 	}
-	nvCase := func(ws []uint64, rotate bool, tv uint64, devs []nvDev) {
+	nvCase := func(ws []uint64, rotate bool, tv uint64, devs []nvDev, cached bool) {
 		probe := newCluster(ws, nil, 0, rotate)
 		lead := memberIdx(probe, leaderAt(probe, h, tv))
 		probe.close()
@@ -218,8 +236,9 @@ func cmdGuards(args []string) int {
 		n := cl.nodes[keep]
 		r.emitInit(runId)
 		runId++
-		n.sync(nil, nil)
-		r.record(n, "start", obj{"k": "-"}, nil)
+		if !cached {
+			begin(r, n)
+		}
 		e := &guardEnv{cl: cl, r: r, n: n, h: h, tv: tv}
 		e.nvBk = r.adv.newBody(r, h, false)
 		for i := 0; i < cl.nMembers; i++ {
@@ -240,6 +259,9 @@ func cmdGuards(args []string) int {
 			r.deliverTo(n, r.adv.mkNV(e.nv, nil), "deliver", "byz", "guard_nv:"+name)
 		} else {
 			r.deliverTo(n, r.adv.mkNV(e.nv, e.nvBk), "deliver", "byz", "guard_nv:"+name)
+		}
+		if cached {
+			begin(r, n)
 		}
 	}
 
@@ -296,7 +318,7 @@ func cmdGuards(args []string) int {
 		{"hash_empty", "P C", func(e *guardEnv, m *simple) { m.rf.hash = primitives.BlockHash{} }},
 		{"share_forged", "C", func(e *guardEnv, m *simple) { m.share = "forged" }},
 	}
-	simpleCase := func(ws []uint64, rotate bool, kind string, pre int, devs []sDev) {
+	simpleCase := func(ws []uint64, rotate bool, kind string, pre int, devs []sDev, cached bool) {
 		probe := newCluster(ws, nil, 0, rotate)
 		lead := memberIdx(probe, leaderAt(probe, h, uint64(pre)))
 		probe.close()
@@ -308,9 +330,10 @@ func cmdGuards(args []string) int {
 		n := cl.nodes[keep]
 		r.emitInit(runId)
 		runId++
-		n.sync(nil, nil)
-		r.record(n, "start", obj{"k": "-"}, nil)
-		for k := 0; k < pre; k++ {
+		if !cached {
+			begin(r, n)
+		}
+		for k := 0; k < pre && !cached; k++ {
 			if n.timeout() {
 				r.record(n, "timeout", obj{"k": "-"}, nil)
 			}
@@ -349,6 +372,9 @@ func cmdGuards(args []string) int {
 			raw = r.adv.mkC(m.rf, m.sender, m.mode, m.share)
 		}
 		r.deliverTo(n, raw, "deliver", "byz", "guard_"+kind+":"+name)
+		if cached {
+			begin(r, n)
+		}
 	}
 
 	for gi, ws := range grids {
@@ -360,27 +386,36 @@ func cmdGuards(args []string) int {
 				}
 				for _, d := range sDevs {
 					if strings.Contains(" "+d.kinds+" ", " "+kind+" ") {
-						simpleCase(ws, rotate, kind, pre, []sDev{d})
+						simpleCase(ws, rotate, kind, pre, []sDev{d}, false)
+						if pre == 0 {
+							simpleCase(ws, rotate, kind, pre, []sDev{d}, true)
+						}
 					}
 				}
 			}
 		}
 		for _, tvpv := range [][2]uint64{{1, 0}, {2, 1}, {5, 3}} {
 			for _, d := range vcDevs {
-				vcCase(ws, rotate, tvpv[0], tvpv[1], []vcDev{d})
+				vcCase(ws, rotate, tvpv[0], tvpv[1], []vcDev{d}, false)
+				if tvpv[0] == 1 {
+					vcCase(ws, rotate, tvpv[0], tvpv[1], []vcDev{d}, true)
+				}
 			}
 		}
 		for _, tv := range []uint64{1, 2, 6} {
 			for _, d := range nvDevs {
-				nvCase(ws, rotate, tv, []nvDev{d})
+				nvCase(ws, rotate, tv, []nvDev{d}, false)
+				if tv == 1 {
+					nvCase(ws, rotate, tv, []nvDev{d}, true)
+				}
 			}
 		}
 	}
 	for i := 0; i < *nRand; i++ {
 		ws := grids[rnd.Intn(len(grids))]
 		tv := uint64(1 + rnd.Intn(5))
-		vcCase(ws, rnd.Intn(2) == 0, tv, uint64(rnd.Intn(int(tv))), []vcDev{vcDevs[rnd.Intn(len(vcDevs))], vcDevs[rnd.Intn(len(vcDevs))]})
-		nvCase(ws, rnd.Intn(2) == 0, tv, []nvDev{nvDevs[rnd.Intn(len(nvDevs))], nvDevs[rnd.Intn(len(nvDevs))]})
+		vcCase(ws, rnd.Intn(2) == 0, tv, uint64(rnd.Intn(int(tv))), []vcDev{vcDevs[rnd.Intn(len(vcDevs))], vcDevs[rnd.Intn(len(vcDevs))]}, rnd.Intn(4) == 0)
+		nvCase(ws, rnd.Intn(2) == 0, tv, []nvDev{nvDevs[rnd.Intn(len(nvDevs))], nvDevs[rnd.Intn(len(nvDevs))]}, rnd.Intn(4) == 0)
 	}
 	fmt.Printf("lines=%d cases=%d\n", real.n, runId)
 	return 0
